@@ -22,6 +22,10 @@ type CtxInfo struct {
 	Sequential bool               `json:"sequential"`
 	Contexts   []string           `json:"contexts"`
 	NoDownOK   bool               `json:"-"`
+	// CancelledMid: the runner was cancelled while tasks were in flight. Which tasks got as far as their
+	// context `before` is then a matter of timing; what remains decided: every `before` is matched by an
+	// `after`, `up` ran once and first, `down` once and last.
+	CancelledMid bool `json:"cancelled_mid"`
 }
 
 type Finding struct{ Sig, What string }
@@ -120,6 +124,18 @@ func CheckCtxTrace(toks []string, info CtxInfo) []Finding {
 			}
 		}
 		ncb, nca := count("cb"), count("ca")
+		if info.CancelledMid {
+			if ncb != nca {
+				add("context-after-missing/cancelled-run", "context %s: `before` ran %d times but `after` %d times in a run that was cancelled while tasks were in flight: %v", cx, ncb, nca, seq)
+			}
+			nd := count("down")
+			if nd != 1 {
+				add("down-count/cancelled-run", "context %s was used, the run was cancelled, `down` ran %d times at shutdown (expected once)", cx, nd)
+			} else if seq[len(seq)-1] != "down" {
+				add("token-after-down", "context %s: tokens after `down`: %v", cx, seq)
+			}
+			continue
+		}
 		if ncb < nexec || ncb > nexec+nskip {
 			add("context-before-count", "context %s: `before` ran %d times for %d task executions (+%d skipped)", cx, ncb, nexec, nskip)
 		}
